@@ -12,6 +12,7 @@ CONSTANTS
   FixKeep = TRUE
   FixDangling = TRUE
   FixABA = TRUE
+  Healthy = FALSE
   DriftOn = FALSE
 INVARIANTS Exclusive NeverUnassignHeld NeverDeleteInUse HeldBacked QuotaAddr NoGhostOwner TrackedEqualsCloud
 CHECK_DEADLOCK FALSE
